@@ -1,4 +1,5 @@
 //! vtime_mc: bounded-exhaustive exploration of vouched_time (C14 window; C19 NFS histories; C18 clause ii).
+mod nfs;
 mod window;
 
 use mc_core::*;
@@ -13,13 +14,14 @@ fn level(prop: &str) -> &'static str {
 fn rule(ctx: &Ctx) -> String {
     match ctx.prop.as_str() {
         "C14" => "every (local, base, voucher) triple in the dense blocks described in notes is given to the real VouchedTime::new/check/get_local_time and compared with the window rule evaluated in i128; non-trivial = triples the rule accepts (each triple is distinct by construction).".into(),
-        _ => String::new(),
+        _ => "every history over the op alphabet in notes to the depth bound runs in a fresh child process against real files on two real devices; after every call the child reads get_base_time_unlocked and stats its files: the base time never decreases, changes only to the change-time of a file on a trusted device (or of the path being registered), observations of files on other devices report nothing, every returned pair passes VouchedTime's check. states = distinct (history, device role) pairs; non-trivial = histories in which the base time advanced.".into(),
     }
 }
 
 fn run(ctx: &Ctx) -> Report {
     match ctx.prop.as_str() {
         "C14" => window::run(ctx),
+        "C19" => nfs::run(ctx),
         other => machinery_failure(&format!("vtime_mc does not serve {}", other)),
     }
 }
@@ -27,6 +29,7 @@ fn run(ctx: &Ctx) -> Report {
 fn replay(ctx: &Ctx, text: &str) -> Result<String, String> {
     match ctx.prop.as_str() {
         "C14" => window::replay(text),
+        "C19" => nfs::replay(text),
         other => machinery_failure(&format!("vtime_mc does not serve {}", other)),
     }
 }
@@ -37,10 +40,18 @@ fn assumptions(ctx: &Ctx) -> Vec<String> {
             "local times are enumerated at millisecond granularity (the code truncates sub-millisecond parts toward zero)".into(),
             "the accept predicate is piecewise linear in (local - base) with breakpoints only at the enumerated edges and wrap-around boundaries".into(),
         ],
-        _ => vec![],
+        _ => vec![
+            "change-times come from the kernel clock of tmpfs (/dev/shm) and the root file system; NFS itself is not available".into(),
+            "the oracle does not depend on which throttle branch (100 ms) was taken, so timing jitter cannot raise an alarm".into(),
+            "concurrency inside nfs_voucher is out of scope (the statement is about histories)".into(),
+        ],
     }
 }
 
 fn main() {
+    let args: Vec<String> = std::env::args().collect();
+    if args.len() >= 5 && args[1] == "--child" {
+        nfs::child_main(&args[2..]);
+    }
     main_entry(Engine { name: "vtime_mc", level, rule, run, replay, assumptions });
 }
